@@ -65,6 +65,16 @@ pub trait BitSetLike: Sized {
         ensures r.rem() == sorted_seq(self.bview()), r.set_view() == self.bview();
     fn is_empty(&self) -> (r: bool)
         ensures r == (self.bview() =~= Set::<u32>::empty());
+    // the raw layer words of the hierarchical bit set: UNSPECIFIED here (code that decides anything from them directly cannot be
+    // verified against the set view and fails its obligation instead of being rejected as an unknown method)
+    #[verifier::external_body]
+    fn layer3(&self) -> (r: usize) { unimplemented!() }
+    #[verifier::external_body]
+    fn layer2(&self, i: usize) -> (r: usize) { unimplemented!() }
+    #[verifier::external_body]
+    fn layer1(&self, i: usize) -> (r: usize) { unimplemented!() }
+    #[verifier::external_body]
+    fn layer0(&self, i: usize) -> (r: usize) { unimplemented!() }
 }
 
 #[verifier::external_body]
